@@ -1689,6 +1689,12 @@ pub fn count_faultable(ctx: &mut Ctx, scn: &StoreScn) -> Vec<FaultableCall> {
 }
 
 /// One run with `scn.fault` set: the C20 oracle.
+/// Was the injected fault of this run applied to a read-side call (outside C20's quantifier,
+/// which names write, create, fsync and unlink)?
+fn fired_is_read_side(sim: &Sim) -> bool {
+    fsim::with_fs(sim, |fs| !fs.fired.is_empty() && fs.fired.iter().all(|f| matches!(f.op, IoOp::Read | IoOp::Stat | IoOp::Mmap | IoOp::OpenDir | IoOp::OpenRead)))
+}
+
 pub fn run_fault_one(ctx: &mut Ctx, scn: &StoreScn) {
     let (nth, errno, mode) = scn.fault.expect("fault spec");
     fsim::with_fs(ctx.sim, |fs| {
@@ -1710,8 +1716,13 @@ pub fn run_fault_one(ctx: &mut Ctx, scn: &StoreScn) {
         match open_store(ctx, &rel, &cfg) {
             Ok(s) => {
                 if errors_seen(ctx.sim) > e0 {
-                    ctx.viol("fault-swallowed", format!("fault #{} (errno {}) hit the initial open, which returned Ok", nth, errno), "");
-                    return;
+                    if fired_is_read_side(ctx.sim) {
+                        fault_op = Some("open (read-side call, not reported)".into());
+                        ctx.sim.probe("read_side_fault_not_reported");
+                    } else {
+                        ctx.viol("fault-swallowed", format!("fault #{} (errno {}) hit the initial open, which returned Ok", nth, errno), "");
+                        return;
+                    }
                 }
                 store = Some(s);
             }
@@ -1868,6 +1879,14 @@ pub fn run_fault_one(ctx: &mut Ctx, scn: &StoreScn) {
             (Ok(()), true) if background_fault => {
                 fault_op = Some(format!("a background task during {}", desc));
                 ctx.sim.probe("fault_in_background_task");
+            }
+            (Ok(()), true) if fired_is_read_side(ctx.sim) => {
+                // the property quantifies over failed write, create, fsync and unlink calls; a
+                // failed read-side call (read, fstat, mmap, opendir, open for reading) that the
+                // operation got around (a retry, a fallback path, a hint it can do without) need
+                // not be reported -- but everything the store says afterwards must still be true
+                fault_op = Some(format!("{} (read-side call, not reported)", desc));
+                ctx.sim.probe("read_side_fault_not_reported");
             }
             (Ok(()), true) => {
                 ctx.viol("fault-swallowed", format!("fault #{} (errno {}) hit a file-system call made by {}, which nevertheless returned Ok", nth, errno, desc), "");
